@@ -103,10 +103,12 @@ func NewProcess(opts ...ProcOpts) *Process {
 }
 
 func (p *Process) run() int {
+	verifYieldP(p, "run.entry")
 	if p.isState(types.ProcessStateTerminating) {
 		return 0
 	}
 
+	verifYieldP(p, "run.checkTerm")
 	if err := p.validateProcess(); err != nil {
 		log.Error().Err(err).Msgf(`Failed to run command ["%v"] for process %s`, strings.Join(p.getCommand(), `" "`), p.getName())
 		p.onProcessEnd(types.ProcessStateError)
@@ -116,6 +118,7 @@ func (p *Process) run() int {
 	p.onProcessStart()
 loop:
 	for {
+		verifYieldP(p, "run.beforeLaunch")
 		err := p.setStateAndRun(p.getStartingStateName(), p.getProcessStarter())
 		if err != nil {
 			log.Error().Err(err).Msgf(`Failed to run command ["%v"] for process %s`, strings.Join(p.getCommand(), `" "`), p.getName())
@@ -137,6 +140,7 @@ loop:
 
 		p.waitForStdOutErr()
 		_ = p.command.Wait()
+		verifYieldP(p, "run.afterWait")
 		p.Lock()
 		p.setExitCode(p.command.ExitCode())
 		p.Unlock()
@@ -150,10 +154,12 @@ loop:
 			p.waitForDaemonCompletion()
 		}
 
+		verifYieldP(p, "run.beforeRestartable")
 		if !p.isRestartable() {
 			break
 		}
 		p.setState(types.ProcessStateRestarting)
+		verifYieldP(p, "run.restarting")
 		p.procState.Restarts += 1
 		log.Info().Msgf("Restarting %s in %v second(s)... Restarts: %d",
 			p.getName(), p.getBackoff().Seconds(), p.procState.Restarts)
@@ -163,10 +169,12 @@ loop:
 			log.Debug().Str("process", p.getName()).Msg("process stopped while waiting to restart")
 			break loop
 		case <-time.After(p.getBackoff()):
+			verifYieldP(p, "run.afterBackoff")
 			p.handleInfo("\n")
 			continue
 		}
 	}
+	verifYieldP(p, "run.beforeEnd")
 	p.onProcessEnd(types.ProcessStateCompleted)
 	return p.getExitCode()
 }
@@ -232,6 +240,9 @@ func (p *Process) getProcessStarter() func() error {
 }
 
 func (p *Process) getCommander() command.Commander {
+	if c := verifCommander(p); c != nil {
+		return c
+	}
 	if p.procConf.IsTty && !p.isMain {
 		return command.BuildPtyCommand(
 			p.procConf.Executable,
@@ -266,6 +277,9 @@ func (p *Process) getBackoff() time.Duration {
 	backoff := 1
 	if p.procConf.RestartPolicy.BackoffSeconds > backoff {
 		backoff = p.procConf.RestartPolicy.BackoffSeconds
+	}
+	if d, ok := verifBackoffOverride(backoff); ok {
+		return d
 	}
 	return time.Duration(backoff) * time.Second
 }
@@ -376,6 +390,7 @@ func (p *Process) internalStop() error {
 
 func (p *Process) stopProcess(cancelReadinessFuncs bool) error {
 	p.runCancelFn()
+	verifYieldP(p, "stop.afterCancel")
 	if !p.isRunning() {
 		log.Debug().Msgf("process %s is in state %s not shutting down", p.getName(), p.getStatusName())
 		// prevent pending process from running
@@ -384,6 +399,7 @@ func (p *Process) stopProcess(cancelReadinessFuncs bool) error {
 		}
 		return nil
 	}
+	verifYieldP(p, "stop.beforeTerminating")
 	p.setState(types.ProcessStateTerminating)
 	p.stopProbes()
 	if cancelReadinessFuncs {
@@ -395,6 +411,7 @@ func (p *Process) stopProcess(cancelReadinessFuncs bool) error {
 	if isStringDefined(p.procConf.ShutDownParams.ShutDownCommand) {
 		return p.doConfiguredStop(p.procConf.ShutDownParams)
 	}
+	verifYieldP(p, "stop.beforeSignal")
 	err := p.command.Stop(p.procConf.ShutDownParams.Signal, p.procConf.ShutDownParams.ParentOnly)
 	if err != nil {
 		log.Error().Err(err).Msgf("terminating %s failed", p.getName())
@@ -481,9 +498,11 @@ func (p *Process) onProcessEnd(state string) {
 	if p.readyProber != nil {
 		p.readyCancelFn()
 	}
+	verifYieldP(p, "end.beforeState")
 	p.setState(state)
 	p.updateProcState()
 
+	verifYieldP(p, "end.beforeDone")
 	p.Lock()
 	p.done = true
 	p.Unlock()
@@ -720,6 +739,7 @@ func (p *Process) setStateAndRun(state string, runnable func() error) error {
 }
 
 func (p *Process) onStateChange(state string) {
+	verifStateChange(p, state)
 	switch state {
 	case types.ProcessStateSkipped:
 		p.setExitCode(1)
